@@ -212,6 +212,9 @@ func main() {
 		rec.Exit = 128 + 13
 	case "quiet7":
 		rec.Exit = 7
+	case "exit0":
+		// the output simply ends early and the process reports success
+		rec.Exit = 0
 	}
 	appendLog(rec)
 	// only a process that exits by itself can say why; one that is killed by a signal (or that
